@@ -2,6 +2,7 @@ import MitumModel.Common
 import MitumModel.Model.OpPool
 import MitumModel.Model.ExpelPool
 import MitumModel.Model.BallotPool
+import MitumModel.Model.ProposalMaker
 import MitumModel.Gen.C23
 namespace Mitum.Driver
 open Mitum
@@ -104,6 +105,33 @@ def stepC24 (ts : List String) : String :=
         | none => (acc.1, acc.2 ++ ["bad-op"])
       | _ => (acc.1, acc.2 ++ ["bad-op"])
     joinSp (ops.foldl step (BallotPool.init, [])).2
+  | _ => "bad-op"
+
+end Mitum.Driver
+
+namespace Mitum.Driver
+open Mitum
+
+/-- C38: `seq m:<h.r.0.prev> e:<…> f:<h.r.proposer.prev> o …` (proposer 0 = local) -/
+def stepC38 (ts : List String) : String :=
+  match ts with
+  | "seq" :: ops =>
+    let step := fun (acc : ProposalMaker.State × Nat × List String) (t : String) =>
+      match t.splitOn ":" with
+      | ["o"] => (acc.1, acc.2.1, acc.2.2 ++ ["-"])
+      | [k, tr] =>
+        match parseNats tr "." with
+        | some [h, r, pr, pv] =>
+          let trip : BallotPool.Triple := { h := h, r := r, proposer := pr, prev := pv }
+          if k = "f" then
+            let r := ProposalMaker.step acc.1 (.foreign (1000000 + acc.2.1) trip (1000000 + acc.2.1))
+            (r.1, acc.2.1 + 1, acc.2.2 ++ ["-"])
+          else
+            let r := ProposalMaker.make acc.1 trip []
+            (r.1, acc.2.1, acc.2.2 ++ [toString r.2])
+        | _ => (acc.1, acc.2.1, acc.2.2 ++ ["bad-op"])
+      | _ => (acc.1, acc.2.1, acc.2.2 ++ ["bad-op"])
+    joinSp (ops.foldl step (ProposalMaker.init, 0, [])).2.2
   | _ => "bad-op"
 
 end Mitum.Driver
